@@ -240,6 +240,13 @@ def bad_game(rng, base=None, rule=None):
         tl[i][j] = (rng.choice(["0.5", None, "half"]), tl[i][j][1])
     elif rule == "succ_not_int":
         tl[i][j] = (tl[i][j][0], rng.choice([1.0, "1", None]))
+    elif rule == "succ_float_same":
+        tl[i][j] = (tl[i][j][0], float(tl[i][j][1]))      # equal to the int index, but not an int: malformed
+    elif rule == "prob_int_as_float":
+        ks = [k for k in range(n) if g["players"][k] == PR]
+        if ks:
+            i = rng.choice(ks)
+            tl[i] = [(float(p_), s_) if isinstance(p_, int) else (p_, s_) for p_, s_ in tl[i]]   # still well-formed
     elif rule == "short_rewards":
         g["rewards"] = g["rewards"][:-1]
     elif rule == "short_transitions":
